@@ -35,6 +35,7 @@
 # POSSIBILITY OF SUCH DAMAGE.
 from __future__ import annotations
 
+import pathlib
 from typing import Optional
 
 import numpy as np
@@ -143,6 +144,10 @@ def collect_cell_info(
         keyword = phonopy_yaml_cls.command_name
         if _cell_filename is None:
             pass
+        elif not pathlib.Path(_cell_filename).is_file():
+            return {
+                "error_message": f'Crystal structure file "{_cell_filename}" was not found.'
+            }
         elif is_file_phonopy_yaml(_cell_filename, yaml_dict_keys=[keyword]):
             # Readable as a phonopy.yaml
             pass
